@@ -1130,4 +1130,239 @@ Theorem none_is_absent inj c n :
   get inj n = None -> pick inj c n = get inj (prefixed c n).
 Proof. intros H. unfold pick. now rewrite H. Qed.
 
+(* ====================================================================== *)
+(* _collect_injectables: what the robot's own attributes contribute.       *)
+(* Callable objects (anything but a bound method) are injectables like any *)
+(* other object.                                                           *)
+(* ====================================================================== *)
+
+(* the dir() entry called n *)
+Definition dir_entry (r : robot) (n : name) : option rattr :=
+  find (fun a => String.eqb (ra_name a) n) (r_dir r).
+
+(* the entries _collect_injectables keeps: public, not "logger", not a
+   property / tunable of the class, not a bound method.  Whether the value is
+   callable plays no role. *)
+Definition injectable_attr (a : rattr) : bool :=
+  negb (is_private (ra_name a)) && negb (String.eqb (ra_name a) "logger") &&
+  match ra_kind a with KPlain | KCallable => true | KMethod | KDescriptor => false end.
+
+Lemma collect_get_notin dir n :
+  ~ In n (map ra_name dir) -> get (collect_injectables dir) n = None.
+Proof.
+  induction dir as [|a dir IH]; simpl; intros H; [reflexivity|].
+  assert (H1 : ra_name a <> n) by (intros E; apply H; now left).
+  assert (H2 : ~ In n (map ra_name dir)) by (intros E; apply H; now right).
+  destruct (is_private (ra_name a) || (String.eqb (ra_name a) "logger" || false)
+            || match ra_kind a with KDescriptor => true | _ => false end); [now apply IH|].
+  destruct (kind_ismethod (ra_kind a)); [now apply IH|].
+  simpl. apply String.eqb_neq in H1. rewrite H1. now apply IH.
+Qed.
+
+Lemma collect_get dir n :
+  NoDup (map ra_name dir) ->
+  get (collect_injectables dir) n =
+  match find (fun a => String.eqb (ra_name a) n) dir with
+  | Some a => if injectable_attr a then ra_value a else None
+  | None => None
+  end.
+Proof.
+  induction dir as [|a dir IH]; simpl; intros ND; [reflexivity|].
+  inversion ND as [|? ? Hn ND']; subst. specialize (IH ND').
+  unfold injectable_attr at 1.
+  destruct (String.eqb (ra_name a) n) eqn:EN.
+  - apply String.eqb_eq in EN. subst n.
+    destruct (is_private (ra_name a)); simpl; [now apply collect_get_notin|].
+    destruct (String.eqb (ra_name a) "logger"); simpl; [now apply collect_get_notin|].
+    destruct (ra_kind a); simpl; try (now apply collect_get_notin);
+      now rewrite String.eqb_refl.
+  - destruct (is_private (ra_name a)); simpl; [exact IH|].
+    destruct (String.eqb (ra_name a) "logger"); simpl; [exact IH|].
+    destruct (ra_kind a); simpl; try exact IH; now rewrite EN.
+Qed.
+
+(* ---- C08_robot_injectables_exact ---- *)
+Theorem robot_injectables_exact r n :
+  NoDup (map ra_name (r_dir r)) ->
+  get (robot_injectables r) n =
+  match dir_entry r n with
+  | Some a => if injectable_attr a then ra_value a else None
+  | None => None
+  end.
+Proof. intros ND. unfold robot_injectables, dir_entry. now apply collect_get. Qed.
+
+Lemma dir_entry_name r n a : dir_entry r n = Some a -> In a (r_dir r) /\ ra_name a = n.
+Proof.
+  unfold dir_entry. intros H. apply find_some in H. destruct H as [HI E].
+  apply String.eqb_eq in E. now split.
+Qed.
+
+Lemma dir_entry_robot_has r n a : dir_entry r n = Some a -> robot_has r n = true.
+Proof.
+  intros H. apply dir_entry_name in H. destruct H as [HI <-].
+  unfold robot_has. apply mem_In. now apply in_map.
+Qed.
+
+Lemma robot_has_not_component r n cs :
+  robot_has r n = true -> (forall k d, In (k, d) cs -> In (k, d) (components r)) ->
+  assoc n cs = None.
+Proof.
+  intros HH Hsub. apply assoc_None. intros HI. apply in_map_iff in HI.
+  destruct HI as ([k d] & E & HI). simpl in E. subst k. apply Hsub in HI.
+  unfold components in HI. apply in_flat_map in HI. destruct HI as ([m h] & _ & HI). simpl in HI.
+  destruct (is_private m) eqn:EP; simpl in HI; [destruct HI|].
+  destruct (robot_has r m) eqn:EH; simpl in HI; [destruct HI|].
+  destruct h; [|destruct HI]. destruct HI as [HI|[]]. inversion HI; subst. congruence.
+Qed.
+
+(* A public robot attribute that is neither "logger", nor a property/tunable,
+   nor a bound method -- callable or not -- is what a request for its name
+   resolves to, whichever components [cs] have been added to the dict. *)
+Lemma pick_robot_attr r cs c n a o :
+  NoDup (map ra_name (r_dir r)) -> NoDup (map fst cs) ->
+  (forall k d, In (k, d) cs -> In (k, d) (components r)) ->
+  dir_entry r n = Some a -> injectable_attr a = true -> ra_value a = Some o ->
+  pick (injectables_with r cs) c n = Some o.
+Proof.
+  intros ND NDc Hsub HE HI HV. unfold pick, injectables_with.
+  rewrite get_add_comps by assumption.
+  rewrite (robot_has_not_component r n cs (dir_entry_robot_has _ _ _ HE) Hsub).
+  rewrite (robot_injectables_exact r n ND), HE, HI, HV. reflexivity.
+Qed.
+
+Lemma NoDup_app_l {A} (l l' : list A) : NoDup (l ++ l') -> NoDup l.
+Proof.
+  induction l as [|x l IH]; simpl; intros H; [constructor|].
+  inversion H as [|? ? Hn H']; subst. constructor; [|now apply IH].
+  intros HI. apply Hn. apply in_or_app. now left.
+Qed.
+
+Lemma prefix_of_components r before c d after :
+  NoDup (map fst (r_hints r)) -> components r = before ++ (c, d) :: after ->
+  NoDup (map fst before) /\ (forall k d', In (k, d') before -> In (k, d') (components r)).
+Proof.
+  intros ND E. pose proof (comps_of_NoDup r (r_hints r) ND) as NC.
+  rewrite <- components_comps_of, E, map_app in NC. split.
+  - eapply NoDup_app_l. exact NC.
+  - intros k d' HI. rewrite E. apply in_or_app. now left.
+Qed.
+
+(* ---- C08_robot_attr_delivered: attributes of components and modes ---- *)
+Theorem robot_attr_delivered r s :
+  startup subclass r = Ok s ->
+  NoDup (map ra_name (r_dir r)) -> NoDup (map fst (r_hints r)) ->
+  forall tg n h a o, In tg (targets r) -> In (n, h) (t_hints tg) ->
+    is_private n = false -> t_has tg n = false ->
+    dir_entry r n = Some a -> injectable_attr a = true -> ra_value a = Some o ->
+    attr_at r (before_first_setup (trace_of r s)) (t_ref tg) n = Is (Some o) /\
+    attr_at r (trace_of r s) (t_ref tg) n = Is (Some o) /\
+    exists T, hint_type h = Some T /\ subclass (ocls o) T = true.
+Proof.
+  intros HS ND NDh tg n h a o Htg Hh HP HH HE HI HV.
+  destruct (attr_exact r s HS tg n h Htg Hh HP HH) as (T & o' & ET & Hp & Hs & H1 & H2).
+  assert (Hp' : pick (all_injectables r) (tname (t_ref tg)) n = Some o).
+  { unfold all_injectables. eapply pick_robot_attr; eauto.
+    rewrite components_comps_of. now apply comps_of_NoDup. }
+  rewrite Hp' in Hp. inversion Hp; subst o'.
+  split; [assumption|]. split; [assumption|]. exists T. now split.
+Qed.
+
+Theorem robot_attr_delivered_comp r s :
+  startup subclass r = Ok s ->
+  NoDup (map ra_name (r_dir r)) -> NoDup (map fst (r_hints r)) ->
+  forall c d n h a o, In (c, d) (components r) -> In (n, h) (k_hints (c_class d)) ->
+    is_private n = false -> comp_has d n = false ->
+    dir_entry r n = Some a -> injectable_attr a = true -> ra_value a = Some o ->
+    attr_at r (before_first_setup (trace_of r s)) (TComp c) n = Is (Some o) /\
+    attr_at r (trace_of r s) (TComp c) n = Is (Some o) /\
+    exists T, hint_type h = Some T /\ subclass (ocls o) T = true.
+Proof.
+  intros HS ND NDh c d n h a o HI.
+  exact (robot_attr_delivered r s HS ND NDh (comp_target c d) n h a o (comp_in_targets r c d HI)).
+Qed.
+
+Theorem robot_attr_delivered_mode r s :
+  startup subclass r = Ok s ->
+  NoDup (map ra_name (r_dir r)) -> NoDup (map fst (r_hints r)) ->
+  forall md n h a o, In md (r_modes r) -> In (n, h) (m_hints md) ->
+    is_private n = false -> mode_has md n = false ->
+    dir_entry r n = Some a -> injectable_attr a = true -> ra_value a = Some o ->
+    attr_at r (before_first_setup (trace_of r s)) (TMode (m_name md)) n = Is (Some o) /\
+    attr_at r (trace_of r s) (TMode (m_name md)) n = Is (Some o) /\
+    exists T, hint_type h = Some T /\ subclass (ocls o) T = true.
+Proof.
+  intros HS ND NDh md n h a o HI.
+  exact (robot_attr_delivered r s HS ND NDh (mode_target md) n h a o (mode_in_targets r md HI)).
+Qed.
+
+(* ---- C08_robot_attr_ctor_delivered: constructor parameters ---- *)
+Theorem robot_attr_ctor_delivered r s :
+  startup subclass r = Ok s ->
+  NoDup (map ra_name (r_dir r)) -> NoDup (map fst (r_hints r)) ->
+  forall before c d after p h a o, components r = before ++ (c, d) :: after ->
+    In (p, h) (k_init_hints (c_class d)) ->
+    dir_entry r p = Some a -> injectable_attr a = true -> ra_value a = Some o ->
+    exists kw,
+      nth_error (st_comps s) (List.length before) = Some {| cr_name := c; cr_def := d; cr_kwargs := kw |} /\
+      In (p, o) kw /\ exists T, hint_type h = Some T /\ subclass (ocls o) T = true.
+Proof.
+  intros HS ND NDh before c d after p h a o E Hh HE HI HV.
+  destruct (ctor_exact r s HS) as [_ HC]. destruct (HC _ _ _ _ E) as (kw & Hn & HA).
+  exists kw. split; [exact Hn|].
+  destruct (Forall2_In_l _ _ _ _ HA Hh) as ([p' o'] & Hkw & Ep & _ & T & ET & Hp & Hs).
+  simpl in *. subst p'.
+  destruct (prefix_of_components r before c d after NDh E) as [NB Hsub].
+  rewrite (pick_robot_attr r before c p a o ND NB Hsub HE HI HV) in Hp. inversion Hp; subst o'.
+  split; [exact Hkw|]. exists T. now split.
+Qed.
+
+(* ---- C08_robot_attr_serves: such a request is never the reason of a failure ---- *)
+Theorem robot_attr_serves r cs c n h T a o :
+  NoDup (map ra_name (r_dir r)) -> NoDup (map fst cs) ->
+  (forall k d, In (k, d) cs -> In (k, d) (components r)) ->
+  dir_entry r n = Some a -> injectable_attr a = true -> ra_value a = Some o ->
+  hint_type h = Some T -> subclass (ocls o) T = true ->
+  ~ request_fails (injectables_with r cs) c n h.
+Proof.
+  intros ND NDc Hsub HE HI HV ET Hs HF.
+  eapply fills_not_fails; [exact ET| |exact HF].
+  split; [|exact Hs]. eapply pick_robot_attr; eauto.
+Qed.
+
+(* ---- C08_callable_irrelevant ---- *)
+(* the same robot, every callable (non-method) attribute declared not callable *)
+Definition forget_callable (a : rattr) : rattr :=
+  {| ra_name := ra_name a;
+     ra_kind := match ra_kind a with KCallable => KPlain | k => k end;
+     ra_value := ra_value a |}.
+Definition robot_forget_callable (r : robot) : robot :=
+  {| r_dir := map forget_callable (r_dir r); r_hints := r_hints r; r_modes := r_modes r |}.
+
+Lemma collect_forget_callable dir :
+  collect_injectables (map forget_callable dir) = collect_injectables dir.
+Proof.
+  induction dir as [|a dir IH]; simpl; [reflexivity|]. rewrite IH.
+  destruct (ra_kind a); reflexivity.
+Qed.
+
+Lemma construct_has_ext r r' hints inj :
+  (forall m, robot_has r m = robot_has r' m) ->
+  construct subclass r hints inj = construct subclass r' hints inj.
+Proof.
+  intros HH. revert inj. induction hints as [|[m h] hints IH]; simpl; intros inj; [reflexivity|].
+  rewrite <- HH. destruct (is_private m); [apply IH|].
+  destruct (robot_has r m); [apply IH|].
+  destruct h as [d|]; [|reflexivity].
+  destruct (create_component subclass m d inj); [|reflexivity]. now rewrite IH.
+Qed.
+
+Theorem callable_irrelevant r :
+  startup subclass (robot_forget_callable r) = startup subclass r.
+Proof.
+  unfold startup. simpl. rewrite collect_forget_callable.
+  rewrite (construct_has_ext (robot_forget_callable r) r).
+  - reflexivity.
+  - intros m. unfold robot_has. simpl. rewrite map_map. reflexivity.
+Qed.
+
 End WithSubclass.
